@@ -23,6 +23,7 @@ Definition mk (q o i t m f b p ep es g sc bo c pr : bool) : pv :=
 Definition mon_l (prev_out : bool) (o : lobs) : nat :=
   let v := lo_v o in
   if v_mesh v && negb (v_out v) then 133      (* known finding class: in a mesh without an outbound stream *)
+  else if v_gater v && negb (v_out v || v_in v) then 134   (* known finding class: gater statistics for a peer without any stream *)
   else if negb (depb v) then 132
   else if lo_bl o && negb (Nat.eqb (lo_delivered o) 0) then 161        (* C16: nothing from / authored by a blacklisted peer is delivered *)
   else if lo_apinow o && (v_queue v || v_out v || v_mesh v || v_fanout v) then 162   (* C16: at that moment gone from queue, peer lists, mesh, fanout *)
@@ -44,7 +45,9 @@ Definition check_lcase_for (c : lcase) : verdict :=
   | Some (i, code) => VMonFail i code
   | None =>
       if lkeep 131 && negb (reclaimed (lc_final c))
-      then (if v_mesh (lc_final c) && negb (v_out (lc_final c)) then VMonFail (length (lc_steps c)) 133 else VMonFail (length (lc_steps c)) 131)
+      then (if v_mesh (lc_final c) && negb (v_out (lc_final c)) then VMonFail (length (lc_steps c)) 133
+            else if v_gater (lc_final c) && negb (v_out (lc_final c) || v_in (lc_final c)) then VMonFail (length (lc_steps c)) 134
+            else VMonFail (length (lc_steps c)) 131)
       else VOk
   end.
 End ForProperty.
